@@ -120,6 +120,26 @@ Theorem C02_recovery_fault_leaves_recoverable : forall c f k, reach c -> c_v c =
     Safe (fst (run_prog (firstn k (fst (fst (open_prog (c_fs c))))) f O (c_fs c) None)) (concat (c_ack c) ++ concat ch) None.
 Proof. exact recovery_fault_recoverable. Qed.
 
+(* ---- 7. what the predicates of 6c/6d mean, in terms of KeyValueStore::open only.
+   `Good s E` (ProofsInv.v) is a recoverable image: names unique, every file in sst/ a complete durable
+   SST holding what its name says, every listed SST present, live SSTs + root logs hold exactly E,
+   and every file recovery reads fully durable.  Such an image opens: none of open's calls fails
+   and the store that comes up holds exactly E. *)
+Theorem C02_recoverable_image_opens : forall s E, Good s E ->
+  exists s', run (fst (fst (open_prog s))) s = (s', None) /\ snd (open_prog s) = true /\
+             Run s' (snd (fst (open_prog s))) /\
+             forall e, In e (all_entries (snd (fst (open_prog s)))) <-> In e E.
+Proof. exact recoverable_image_opens. Qed.
+
+(* ---- 7b. `Safe s E P`: every crash image of s, under any cut, opens and holds E, or E plus the
+   whole batch p in flight (P = Some p). *)
+Theorem C02_safe_state_recovers : forall s E P img, Safe s E P -> cut s img ->
+  exists E', (E' = E \/ exists p, P = Some p /\ E' = E ++ p) /\
+    exists s', run (fst (fst (open_prog img))) img = (s', None) /\ snd (open_prog img) = true /\
+               Run s' (snd (fst (open_prog img))) /\
+               forall e, In e (all_entries (snd (fst (open_prog img)))) <-> In e E'.
+Proof. exact safe_state_recovers. Qed.
+
 (* ---- non-vacuity: a concrete history — open, two writes, a flush that dies by power loss after
    the SST was linked into sst/ but before the manifest edit — is reachable, and recovery returns
    the three entries *)
